@@ -74,6 +74,33 @@ def explore_l2(scenarios, seed=0, workers=12):
     return traces, meta
 
 
+def _l3_one(args):
+    import subprocess, shutil, tempfile
+    base, k, runs = args
+    d = os.path.join(base, "l3_%d" % k); os.makedirs(d)
+    jf = os.path.join(d, "job.json"); json.dump({"dir": os.path.join(d, "w"), "runs": runs}, open(jf, "w"))
+    env = dict(os.environ, PYTHONPATH="/repo:" + VERIF, PYTHONDONTWRITEBYTECODE="1", JOBLIB_TEMP_FOLDER=d)
+    with open(os.path.join(d, "log"), "w") as lf:
+        try: subprocess.run(["/venv/bin/python", os.path.join(VERIF, "harness", "pl3.py"), jf], env=env, stdout=lf, stderr=lf, stdin=subprocess.DEVNULL, timeout=900)
+        except subprocess.TimeoutExpired: pass
+    out = json.load(open(jf + ".out")) if os.path.exists(jf + ".out") else [{"events": [], "notes": ["L3 driver did not finish: " + open(os.path.join(d, "log")).read()[-300:]]} for _ in runs]
+    subprocess.run(["pkill", "-9", "-f", d + "/"]); shutil.rmtree(d, ignore_errors=True)
+    return out
+
+
+def explore_l3(runs, base, groups=6):
+    """runs: list of pl3 configurations (built-in backends, gate-steered).  Several runs share one driver process (executor reuse)."""
+    jobs = [(base, k, runs[k::groups]) for k in range(groups) if runs[k::groups]]
+    traces = []; meta = []
+    with ProcessPoolExecutor(max_workers=len(jobs)) as ex:
+        for (b, k, rs), out in zip(jobs, ex.map(_l3_one, jobs)):
+            for cfg, o in zip(rs, out):
+                if not o["events"]:
+                    raise RuntimeError("L3 run produced no trace: %s %s" % (cfg, o["notes"]))
+                traces.append(o["events"]); meta.append({"cfg": cfg, "sched": cfg.get("order") if isinstance(cfg.get("order"), list) else [1], "notes": o["notes"], "driver": "L3"})
+    return traces, meta
+
+
 def validate(c, traces, meta, own, chunk=6000, label="L1"):
     """TLC-validate traces against ParallelAbs; record violations of property `own` (prefix of the clause)."""
     other = collections.Counter()
